@@ -620,8 +620,8 @@ def main(run):
         a = m["a"]
         ob = obs[i]
         v = verdicts[i]
-        for r in a.runs:
-            symbols_used.update(c for c in O.SYMBOLS.values() if c in r)
+        if a.malformed == 0 and ob.get("out") is not None:
+            symbols_used |= a.symbols
         run.count("trees_converted")
         run.count("elements_converted", ob.get("nodes", 0))
         if a.malformed == 0 and not a.unclaimed and ob.get("out") is not None:
@@ -705,7 +705,7 @@ def main(run):
     run.require("contract_evaluations", evals, 2 * n_trees)
     run.require("contract_bindings_replaced", rebinds or 0, 3)
     run.require("trees_converted", n_trees, run.n(20000, 100000))
-    run.require("mapped_symbols_seen_in_run_texts", len(symbols_used), len(set(O.SYMBOLS.values())))
+    run.require("mapped_symbols_seen_in_run_texts", len(symbols_used), len(O.SYMBOLS))
     run.require("clause5_template_compared", run.counters.get("clause5_template_compared", 0), 5000)
     for k in O.STRUCT:
         run.count("template_compared_" + k, compared_kind.get(k, 0))
@@ -803,8 +803,11 @@ def _integration(run, O, pool, core, specs, meta, obs, integ_pool, tok) -> int:
 def replay(run, doc):
     from vlib import core
     from vlib.gen import omml as O
+    import signal
+    from vlib import worker
     core.setup_paths()
     install_contract()
+    signal.signal(signal.SIGPROF, worker._on_prof)      # _observe arms a CPU budget; outside a pool worker nobody handles it
     case = doc.get("case", doc)
     if "spec" not in case:
         print("replay: integration case", case.get("fmt"))
